@@ -64,6 +64,11 @@ CHECKS = {
    text="Same exploration as C06 through the real kv.Open pipeline (filter/persist, persist splitter relay, asynchronous observer) with three subscribers registered through DB.OnChange / NewObservable(IgnoreHostLeaseholder).OnChange, one of them attaching mid-traffic. After every step each subscriber must have been notified of exactly the operations that changed the node's stored state since its subscription - each once, in order, never one that lost to an already stored operation - and the filtered subscriber of exactly those minus host-led transactions.",
    note="in-memory transports; 'keeps up' holds by construction (one transaction in flight, relay buffer 500); observers carry no versions, operations are identified by unique values.",
    design="3/C13"),
+ "C08": dict(level="exploration", engine="enumx",
+   technique="bounded exhaustive enumeration of frames x codec states (round-trip against an independent sort-and-merge reference) and of byte strings / mutations of valid encodings (no panic, bounded allocation)",
+   text="Round-trip: every frame of a bounded space (0-2 series per channel with lengths {0,1,2}, time ranges {zero,A,B}, alignments {0, a, contiguous, gapped, equal, earlier domain}, channel subsets incl. variable-length, reversed key order, >12 equal-alignment series) through Encode/Decode and EncodeStream/DecodeStream on codecs over the full and the exact channel set, with and without alignment compression, and on dynamic codecs after 1-3 updates with encoder and decoder 0-2 updates apart and with back-to-back updates; the decoded frame must equal the input up to key order and merging of alignment-contiguous series. Arbitrary bytes: all strings up to length 4 (thorough: 5) over {00,01,02,7f,80,fe,ff} after each of the 64 flag bytes, boundary counts after a valid sequence number, every truncation and every 4-byte-field mutation of valid encodings, and data frames sent to a dynamic codec before any update: Decode must return without panic and allocate at most 64*len+512KiB.",
+   note="go1.26.8 toolchain; allocation measured with runtime.MemStats around each Decode; a fatal out-of-memory of the decoder is caught by the re-exec supervisor; the HTTP framer wrapper codec (per WebSocket message type) is not enumerated separately - its high-performance path is the codec decided here.",
+   design="3/C08"),
 }
 NOT_YET = {}
 props = [json.loads(l) for l in open(os.path.join(HERE, "properties.jsonl"))]
